@@ -390,6 +390,17 @@ def run_status_ladder(case, r):
             stops.add((crit, conv, n_it))
             if not verbose:
                 plain[(crit, k)] = (res.distance, n_it, conv)
+                # the reduced formulations solve the same systems: the recorded convergence history (and so
+                # the stopping iteration) is that of the full formulation
+                if mname(method) == "newton" and k % 4 == 0:
+                    for form2 in (("pressure", "direct"), ("flux_reduced", "direct")):
+                        o2 = dict(o, formulation=form2[0], linear_solver=form2[1])
+                        res2 = Wh.run_solver(mname(method), shape, vs, m1, m2, o2)
+                        if res2.exc is not None:
+                            continue
+                        h1, h2 = res.info["convergence_history"], res2.info["convergence_history"]
+                        same_hist = len(h1["residual"]) == len(h2["residual"]) and np.allclose(h1["residual"], h2["residual"], rtol=1e-6, atol=1e-12 * max(1.0, scale)) and bool(res2.info["converged"]) == conv
+                        r.check(same_hist, f"C04/status/history-across-formulations/{form2[0]}", "the recorded residual history, the stopping iteration and the status do not depend on the formulation of the linear systems", full=[float(x) for x in h1["residual"]], reduced=[float(x) for x in h2["residual"]], cfg=tagc)
             else:
                 r.check(plain.get((crit, k)) == (res.distance, n_it, conv), f"C04/status/verbose-is-passive/{mname(method)}", "printing progress does not change the computation (distance, iteration count, status)", plain=plain.get((crit, k)), verbose=(res.distance, n_it, conv), cfg=tagc)
             r.nontriv((tagc["criterion"], k, scale, mk, method, verbose))
